@@ -41,16 +41,19 @@ var defaultConfig = BuildConfig{GOOS: "linux", GOARCH: "amd64"}
 
 // Program is the loaded, type-checked, SSA-built view of /repo.
 type Program struct {
-	Dir     string
-	Config  BuildConfig
-	Fset    *token.FileSet
-	Roots   []*packages.Package
-	Lark    *packages.Package
-	Health  *packages.Package
-	ByPath  map[string]*packages.Package
-	SSA     *ssa.Program
-	LarkSSA *ssa.Package
-	HlthSSA *ssa.Package
+	// minLenScope: when set, minLenAtLeast resolves a helper parameter used as a slice bound only through the
+	// call sites inside these functions (the region of the function under judgement)
+	minLenScope map[*ssa.Function]bool
+	Dir         string
+	Config      BuildConfig
+	Fset        *token.FileSet
+	Roots       []*packages.Package
+	Lark        *packages.Package
+	Health      *packages.Package
+	ByPath      map[string]*packages.Package
+	SSA         *ssa.Program
+	LarkSSA     *ssa.Package
+	HlthSSA     *ssa.Package
 
 	cg        *callgraph.Graph
 	effects   *Effects
